@@ -6,6 +6,6 @@ Next == UNCHANGED cfg
 Spec == Init /\ [][Next]_cfg
 \* every route the code-shaped function may take is allowed, and routing is total
 InvC17 == \A c \in Clients : /\ Routes(cfg, c) # {}
-                             /\ \A r \in Routes(cfg, c) : AllowedC17(cfg, c, r, r \in cfg.native, c.kind = "node")
-InvAuthOnly == \A c \in Clients : c.kind # "node" => Routes(cfg, c) \subseteq {UNAUTH, "none"}
+                             /\ \A r \in Routes(cfg, c) : AllowedC17(cfg, c, r, r \in cfg.native, c.kind \in NodeKinds)
+InvAuthOnly == \A c \in Clients : c.kind \notin NodeKinds => Routes(cfg, c) \subseteq {UNAUTH, "none"}
 =============================================================================
